@@ -52,4 +52,21 @@ theorem recvs_spec (fl : List (Nat × List Nat)) (w : W) (hfl : w.flight = fl) :
     · simp only [List.length_cons, List.replicate_succ, List.foldl_cons]
       exact hflt
 
+theorem drops_keep (ds : List Nat) (w : W) :
+    ((ds.map Op.drop).foldl step w).flight = w.flight ∧ ((ds.map Op.drop).foldl step w).hs.length = w.hs.length := by
+  induction ds generalizing w with
+  | nil => exact ⟨rfl, rfl⟩
+  | cons d ds ih =>
+    have h1 : (step w (.drop d)).flight = w.flight ∧ (step w (.drop d)).hs.length = w.hs.length := by
+      simp only [step]
+      cases hg : w.hs[d]? with
+      | none => exact ⟨rfl, rfl⟩
+      | some x =>
+        cases x with
+        | none => exact ⟨rfl, rfl⟩
+        | some p => simp
+    obtain ⟨a, b⟩ := ih (step w (.drop d))
+    simp only [List.map_cons, List.foldl_cons]
+    exact ⟨a.trans h1.1, b.trans h1.2⟩
+
 end Shm
